@@ -36,7 +36,7 @@ RULE = ("a case = LRI/LRU with max_size 1-4 (on_miss in 30%), 0..max_size+1 init
         "public operations over max_size+2 keys, run under several deterministic schedules that pre-empt before chosen "
         "bytecodes executed inside cacheutils.py (random 0-3 pre-emptions; every 10th case: EVERY single pre-emption "
         "position of one thread; every 10th case: a same-key check-then-act race template swept the same way; 6 (quick) / 120 "
-        "(thorough) two-thread one-operation programs on the full grid of <= 2 pre-emptions); observed per schedule: each thread's results, dict(cache), len, "
+        "(thorough) two-thread one-operation programs on the full grid of <= 2 pre-emptions; thorough also: every ordered pair of 19 representative operations on a full cache over that grid); observed per schedule: each thread's results, dict(cache), len, "
         "eviction order by probing with fresh keys, order of outermost lock acquisitions.  non-trivial = some schedule "
         "actually switched threads inside cacheutils AND (a thread blocked on the lock held by a pre-empted thread, or "
         ">= 2 distinct outcomes were seen); distinct = distinct canonical case hash")
@@ -264,7 +264,21 @@ def _race_case(rng):
             "threads": [ta, tb] if a == 0 else [tb, ta], "scheds": _sys_scheds(a, 1 - a)}
 
 
+def _all_pairs_grids():
+    """thorough tier: EVERY ordered pair of the 19 representative operations, one per thread, on a
+    full cache (max_size 2, class and on_miss alternating), over the grid of <= 2 pre-emptions"""
+    i = 0
+    for a in GRID_OPS:
+        for b in GRID_OPS:
+            i += 1
+            yield {"kind": "LRU" if i % 2 else "LRI", "max": 2, "on_miss": 1 if i % 3 == 0 else 0,
+                   "init": [[0, 1], [1, 2]], "threads": [[a], [b]], "scheds": [["grid2", 0, 1200]]}
+
+
 def generate(rng, tier, n):
+    if tier == "thorough":
+        for c in _all_pairs_grids():
+            yield c
     for _ in range(6 if tier == "quick" else 120):
         yield _grid_case(rng, 300 if tier == "quick" else 2500)
     for i in range(n):
